@@ -1,8 +1,9 @@
 """findings_C09.py — trigger predicates of the open known findings of C09 (findings/C09.entries.json).
 
-There is no open finding at the moment: the six defects this check found (LAT=None on the cell card, a new importance
+There is no open finding at the moment: the seven defects this check found (LAT=None on the cell card, a new importance
 tree labelled with all of MODE, IMP:n=0.0 outside MODE, Cell() without universe with U in the data block, del
-cell.volume with VOL in the data block, a value fused with a trailing jump in a rewritten vector) were repaired in
+cell.volume with VOL in the data block, a value fused with a trailing jump in a rewritten vector, a repeat shortcut
+swallowing a U entry that differs only in its minus sign) were repaired in
 /repo (findings/C09.fixed.json); their replays are regression cases in corpus/C09/ and fail the check if a defect
 returns.
 
@@ -30,21 +31,3 @@ def _passes_neutralised(c, diag):
     except Exception:
         return False
 
-
-def C09_u_sign_in_repeat(case, params):
-    """a data-block U card with a repeat shortcut next to an entry of the same universe with the other sign:
-    the rewritten card loses / invents a minus sign (ShortcutNode._can_consume_node ignores is_negative)"""
-    import re
-    import props.C09 as C09
-    c = _core(case)
-    if c is None or case.get("kind") != "u-sign":
-        return False
-    has = False
-    for line in c["text"].split("\n"):
-        t = line.split()
-        if t and t[0].lower() == "u" and "=" not in line and any(re.match(r"^\d*r$", x, re.I) for x in t[1:]) \
-                and any(x.startswith("-") for x in t[1:]):
-            has = True
-    if not has:
-        return False
-    return _passes_neutralised(c, C09.model_diag(c))
